@@ -10,7 +10,7 @@ from .common import *
 from . import evalref as ER, symast as SA
 from .c01 import child_slots
 
-PROG = None; SEED = 0
+PROG = None; SEED = 0; FULL = False
 class PartError(Exception):
     def __init__(s, kind): s.kind = kind
 
@@ -18,10 +18,11 @@ def job_ast(item):
     top, forced, height, ddepth, deadline, cap = item
     prog = PROG; eng = Engine(prog); eng.deadline = deadline; S = Summary(); XP.init_decls(prog)
     ex0 = PathExec(eng, []); rtc = XP.mk_runtime(ex0)
-    aspec = SA.AstSpec(prog, height, fields=('a', 'b'), leaf=['Identity', 'Field', 'Index', 'Literal', 'Slice'], lit_spec=SY.DocSpec(depth=0, A=0, keys=(), strs=('', 'a'), nums=[0, 1]))
+    aspec = SA.AstSpec(prog, height, fields=('a', 'b'), leaf=['Identity', 'Field', 'Index', 'Literal'] + (['Slice'] if FULL else []), lit_spec=SY.DocSpec(depth=0, A=0, keys=(), strs=('', 'a'), nums=[0, 1]))
     dspec = SY.DocSpec(depth=ddepth, A=2, keys=('a', 'b'), strs=('', 'a'), nums=[0, 1, -1, 1.5])
     kvf = prog.decls.structs['KeyValuePair']
     def part(ex, node, data):
+        node = MM.deref_all(node)          # children are Box<Ast>: evaluate the node itself
         r = XP.interpret(ex, node, data, '', rtc)
         if r.variant == 'Err': raise PartError(XP.reason_kind(r.fields[0].v))
         return r.fields[0].v
@@ -160,7 +161,7 @@ def job_pipe(item):
             if a.get('kind') == 'ok' and a.get('equal'): S['replayed'] += 1
             else: S['mismatches'].append({'pipe': whole, 'doc': d, 'native': a})
             S.sample({'expr': whole, 'doc': d}, cap=1)
-    n, rest = eng.explore(body, on_path, max_paths=4000)
+    n, rest = eng.explore(body, on_path, max_paths=20000)
     if rest: S.inconclusive(f'pipe {whole!r}: cap/deadline after {n} paths')
     S.absorb_engine(eng)
     return S
@@ -178,8 +179,8 @@ def confirm(c, nd, nr):
     return any(not same(o) for o in obs.values()), obs
 
 def run(run):
-    global PROG, SEED
-    PROG = run.program(); XP.init_decls(PROG); SEED = run.seed
+    global PROG, SEED, FULL
+    PROG = run.program(); XP.init_decls(PROG); SEED = run.seed; FULL = run.tier != 'quick'
     run.native('dev')
     XP.run_translator_validation(run, PROG, every=8 if run.tier == 'quick' else 1)
     quick = run.tier == 'quick'; dl = run.deadline
@@ -189,10 +190,10 @@ def run(run):
             jobs += [('ast', k, (c1, c2), 1, 1, dl, 10**7) for c1 in ['Identity', 'Field', 'Index', 'Literal'] for c2 in ['Identity', 'Field', 'Index', 'Literal']]
         elif quick or not child_slots(k): jobs.append(('ast', k, (), 1, 2, dl, 10**7))
         else: jobs += [('ast', k, (c1,), 1, 2, dl, 10**7) for c1 in SA.LEAF] + [('ast', k, (c1,), 2, 2, dl, 60000) for c1 in ['Identity', 'Field', 'Projection', 'Subexpr', 'Flatten', 'Or', 'MultiList']]
-    nl = 8 if quick else len(PIPE_L)
+    nl = 5 if quick else len(PIPE_L)
     ls = [PIPE_L[(i + run.seed) % len(PIPE_L)] for i in range(nl)]; rs = [PIPE_R[(i * 5 + run.seed) % len(PIPE_R)] for i in range(nl)] if quick else PIPE_R
-    jobs += [('pipe', l, r, 2, dl) for l in ls for r in rs]
-    run.bounds = {'AST level': 'every compound node kind over lazily initialised parts of height ' + ('1' if quick else '1 (all leaf kinds) and 2 (sharded)') + ' (leaf kinds Identity, Field{a,b}, Index any i32 in the lexer range, Literal scalar, Slice symbolic); documents depth 2, arrays <= 2',
+    jobs += [('pipe', l, r, 2 if ('==' not in l + r) else 1, dl) for l in ls for r in rs]
+    run.bounds = {'AST level': 'every compound node kind over lazily initialised parts of height ' + ('1' if quick else '1 (all leaf kinds) and 2 (sharded)') + ' (leaf kinds Identity, Field{a,b}, Index any i32 in the lexer range, Literal scalar' + ('' if quick else ', Slice symbolic') + '); documents depth 2, arrays <= 2',
                   'parsed level': f'(L) | (R) for {len(ls)} x {len(rs)} expression texts through the real parser, documents depth 2'}
     run.outside = ['parts deeper than the bounds; the parts themselves are evaluated by the implementation (C01 decides what parts mean)']
     run.assumes = ['combination rules as written in the property text (harness/c11.py combine)']
